@@ -178,6 +178,24 @@ func icaMonitor(r *Rng, n int, report func(Viol)) {
 		g.exec(M{"f": "ctrlAck", "cid": "c1", "hid": "h1"})
 		g.exec(M{"f": "hostConfirm", "hid": "h1"})
 	}
+	// crossing INITs for one owner where the first handshake completes and the second ACK arrives while the
+	// first channel is still OPEN (the controller must refuse it), for both orderings
+	for _, ord := range []string{"ordered", "unordered"} {
+		g.history(0)
+		o := g.owners[1]
+		reg := func() M {
+			return M{"f": "register", "owner": o, "conn": "cconn", "order": ord, "vkind": "blank"}
+		}
+		g.exec(reg())
+		g.exec(reg())
+		g.exec(M{"f": "hostTry", "cid": "c0"})
+		g.exec(M{"f": "hostTry", "cid": "c1"})
+		g.exec(M{"f": "ctrlAck", "cid": "c0", "hid": "h0"})
+		g.exec(M{"f": "hostConfirm", "hid": "h0"})
+		g.exec(M{"f": "ctrlAck", "cid": "c1", "hid": "h1"})
+		g.exec(M{"f": "hostConfirm", "hid": "h1"})
+		g.exec(M{"f": "sendTx", "owner": o, "conn": "cconn", "timeoutOk": true, "dataOk": true})
+	}
 	for i := 0; i < 1+n/60; i++ {
 		g.history(15 + r.Intn(25))
 	}
